@@ -5,15 +5,16 @@ from props.framelib import *
 RULE = ("MC: toy fields with the float pipeline as a bounded perturbation: an input t/16 of the way from k to k+1 goes to a neighbour, the nearer one "
         "outside a slack band; the truncating and +0.5-for-both-signs quantisers are refuted; TV: for every scaled (float-typed) field, inputs "
         "constructed from grid coordinates x = (k + t/16)*res + bias in the field's own float type (res/bias copied verbatim from dfs.rs), "
-        "k from {range ends, 0, +-1, +-2, halves, quarters, log-uniform seeded magnitudes}, t/16 in {0,1,4,7,8,9,12,15}; TLC checks kout in {k,k+1}, the "
+        "k from {range ends, 0, +-1, +-2, halves, quarters, log-uniform seeded magnitudes}, t in {0, 1/16, 1/4, 7/16, 1/2 -+ 2^-14, 1/2, 9/16, 3/4, 15/16}; TLC checks kout in {k,k+1}, the "
         "side of the half step outside the slack band sigma=2^(bitlen+5-mantissa), |decode(encode(x))-x| <= res/2 + sigma*res, and monotonicity "
         "of kout along each field's sorted probe sequence; the hand-written 1059/1065/1230 quantisers are probed through one-entry messages; "
         "non-trivial = probe whose slack band is narrower than its distance from the half step; distinct = distinct (field, k, t)")
 
 
 def sig(ev, d):
-    return "Probe %s t16=%s sigexp=%s gapexp=%s kout-vs-k=%s" % (ev.get("id"), ev.get("t16"), d.get("sigexp"), d.get("gapexp"),
-                                                               "k" if ev.get("kout") == ev.get("kbits") else "other")
+    side = "k" if ev.get("kout") == ev.get("kbits") else "other"
+    kind = "bias-list" if str(ev.get("id", "")).startswith("bias") else "df"
+    return "Probe %s t=%s/2^%s kout=%s enc_err=%s" % (kind, ev.get("tnum"), ev.get("tden"), side, ev.get("enc_err"))
 
 
 def run(chk):
@@ -25,13 +26,13 @@ def run(chk):
     t = record("probes", chk.path("probes.ndjson"), seed=chk.seed, per_field=40 if q else 500, timeout=3000)
     r = tv("Trace_Probe", "Trace_Probe.cfg", t, reset_events=("ProbeBegin",), shards=12, tag="C11")
     chk.add_tv("probes", r)
-    report_rejects(chk, r, sig, lambda ev, d: "quantiser probe violates Nearest/monotone for field %s (t=%s/16)" % (ev.get("id"), ev.get("t16")))
+    report_rejects(chk, r, sig, lambda ev, d: "quantiser probe violates Nearest/monotone for field %s (t=%s/16)" % (ev.get("id"), (ev.get("tnum"), ev.get("tden"))))
     fields = set()
     n = 0
     for ln, o in r["lines"]:
         if o["ev"] == "ProbeBegin":
             fields.add(o["id"])
-        elif o["t16"] != 8:
+        elif (o["tnum"], o["tden"]) != (8, 4):
             n += 1
     if len(fields) < 150:
         raise ToolError("vacuity: only %d fields probed" % len(fields))
@@ -50,7 +51,7 @@ def selftest(chk):
     run_extractor()
     t = record("probes", chk.path("st.ndjson"), seed=chk.seed, per_field=2)
     def mut(o):
-        if o["ev"] == "Probe" and o["t16"] == 1 and o["kout"] == o["kbits"] and not all(o["kbits"]) and sum(o["kbits"][:40]) == 0:
+        if o["ev"] == "Probe" and o["tnum"] == 1 and o["tden"] == 4 and o["kout"] == o["kbits"] and not all(o["kbits"]) and sum(o["kbits"][:40]) == 0:
             # pretend the encoder rounded up an input just above a grid point
             k = o["kbits"]
             i = max(j for j in range(64) if k[j] == 0)
